@@ -61,6 +61,11 @@ def main(S, env):
     v = S.wrap(S.node.make(env))
     st, d = call(S.encode, v)
     if st == "exc":
+        if S.prefix == "C17":
+            from vf.props.c03 import own_name_error
+            bad = own_name_error(d)
+            if bad:
+                return fail("C17/unresolved-name-in-generated-code:%s" % bad[0], value=v, error=bad[1])
         return fail(S.prefix + "/encode-raised:%s" % type(d).__name__, value=v, exc=d)
     st, ref = call(oracle.ref_encode, S.RT, v, S.opts)
     if st == "exc":
